@@ -718,6 +718,9 @@ func c13ExecPlan(t *testing.T, scn c13Scenario, ch *mc.Chooser) (res mc.Result, 
 				case "select", "multi", "exec", "ping", "info", "exists", "hgetall", "hget", "zrangebyscore", "command", "hsetnx", "get", "keys", "scan":
 					continue
 				}
+				if redisd.NonData(n) {
+					continue
+				}
 				if len(r.Argv) > 1 && isBisyncKey(r.Argv[1]) {
 					continue
 				}
